@@ -28,7 +28,7 @@ for c, r in zip(cases, res):
             else: print(c['id'], r[:300])
 print('mismatches', bad, 'of', len(cases))
 t = time.time()
-res2 = coqrun.run_cases(cases, cfg, '/verif/work/try2s', fn='spec_check', imports='Storage Query World Run Spec')
+res2 = coqrun.run_cases(cases, cfg, '/verif/work/try2s', fn='spec_check', imports='Storage Query World Borrow Run Spec')
 print('spec', round(time.time()-t,1), 's')
 sb = 0
 import re
